@@ -230,6 +230,31 @@ Proof.
   - intros n' a' [HP HS]. rewrite map_length in HP. split; assumption.
 Qed.
 
+(* sources that are not random-access iterators: the capacity bound comes from emplace_back alone *)
+Lemma spec_move_insert_fwd a c n pos srcs :
+  cshape a c n -> n <= cap -> (forall s, In s srcs -> a s = true) -> a (Temp 0) = false ->
+  triple a (move_insert_fwd fl cap c n pos srcs) (cpost c a (fun n' => n' = n + length srcs /\ n' <= cap)).
+Proof.
+  intros Hc Hle Hs Ht. unfold move_insert_fwd.
+  eapply triple_bind; [apply triple_require'|]. intros [] ? [Hb1 ->].
+  apply spec_append_rotate; [exact Hc|lia|exact Ht|].
+  eapply triple_conseq; [apply spec_emplace_all; [exact Hc|exact Hle|]|].
+  - intros h Hh. apply in_map_iff in Hh. destruct Hh as [s [<- Hs']]. rewrite bsrc_ok_mv. apply Hs. exact Hs'.
+  - intros n' a' [HP HS]. rewrite map_length in HP. split; assumption.
+Qed.
+
+Lemma spec_insert_range_fwd a c n pos srcs :
+  cshape a c n -> n <= cap -> (forall s, In s srcs -> a s = true) -> a (Temp 0) = false ->
+  triple a (insert_range_fwd fl cap c n pos srcs) (cpost c a (fun n' => n' = n + length srcs /\ n' <= cap)).
+Proof.
+  intros Hc Hle Hs Ht. unfold insert_range_fwd.
+  eapply triple_bind; [apply triple_require'|]. intros [] ? [Hb1 ->].
+  apply spec_append_rotate; [exact Hc|lia|exact Ht|].
+  eapply triple_conseq; [apply spec_emplace_all; [exact Hc|exact Hle|]|].
+  - intros h Hh. apply in_map_iff in Hh. destruct Hh as [s [<- Hs']]. cbn. apply Hs. exact Hs'.
+  - intros n' a' [HP HS]. rewrite map_length in HP. split; assumption.
+Qed.
+
 Lemma spec_insert_n a c n pos k src :
   cshape a c n -> n <= cap -> a src = true -> a (Temp 0) = false ->
   triple a (insert_n fl cap c n pos k src) (cpost c a (fun n' => n' = n + k /\ n' <= cap)).
@@ -437,6 +462,18 @@ Proof.
   eapply triple_bind; [apply triple_require'|]. intros [] ? [Hb1 ->].
   apply spec_clear_then; [exact Hc|]. intros a1 H1.
   eapply triple_conseq; [apply spec_insert_range; [intros i; pw|lia| |pw]|].
+  - intros s Hin. destruct (Hs s Hin) as [Hal Hout]. rewrite H1. destruct s as [c' i|k'|k']; cbn [reshape]; try exact Hal.
+    destruct (Nat.eqb_spec c' c) as [->|]; [exfalso; eapply Hout; reflexivity|]. rewrite Hal. lia.
+  - intros n' a' [HP HS]. split; [lia|exact HS].
+Qed.
+
+Lemma spec_assign_range_fwd a c n srcs :
+  cshape a c n -> (forall s, In s srcs -> a s = true /\ forall i, s <> Slot c i) -> a (Temp 0) = false ->
+  triple a (assign_range_fwd fl cap c n srcs) (cpost c a (fun n' => n' = length srcs /\ n' <= cap)).
+Proof.
+  intros Hc Hs Ht0. unfold assign_range_fwd.
+  apply spec_clear_then; [exact Hc|]. intros a1 H1.
+  eapply triple_conseq; [apply spec_insert_range_fwd; [intros i; pw|lia| |pw]|].
   - intros s Hin. destruct (Hs s Hin) as [Hal Hout]. rewrite H1. destruct s as [c' i|k'|k']; cbn [reshape]; try exact Hal.
     destruct (Nat.eqb_spec c' c) as [->|]; [exfalso; eapply Hout; reflexivity|]. rewrite Hal. lia.
   - intros n' a' [HP HS]. split; [lia|exact HS].
